@@ -15,6 +15,7 @@ def _state(p):
 def make_tracer(base_cls, log):
     class Tracer(base_cls):
         _in_start = False
+        _in_tag = False
 
         def unknown_starttag(self, tag, attrs):
             attrs = list(attrs)
@@ -26,22 +27,27 @@ def make_tracer(base_cls, log):
                 norm = {}
             rec = {"k": "start", "tag": tag, "attrs": attrs, "norm": norm, "pre": pre}
             log.append(rec)
+            self._in_tag = True
             try:
                 return super().unknown_starttag(tag, attrs)
             finally:
                 self._in_start = False
+                self._in_tag = False
                 rec["post"] = _state(self)
 
         def unknown_endtag(self, tag):
             rec = {"k": "end", "tag": tag, "pre": _state(self)}
             log.append(rec)
+            self._in_tag = True
             try:
                 return super().unknown_endtag(tag)
             finally:
+                self._in_tag = False
                 rec["post"] = _state(self)
 
         def handle_data(self, text, escape=1):
-            log.append({"k": "data", "text": text, "escape": escape, "nelem": len(self.elementstack)})
+            # synth: markup re-serialised by unknown_starttag / unknown_endtag inside inline content, not character data from the tokenizer
+            log.append({"k": "data", "text": text, "escape": escape, "nelem": len(self.elementstack), "synth": self._in_tag})
             return super().handle_data(text, escape)
 
         def handle_charref(self, ref):
